@@ -129,3 +129,53 @@ Definition consistent (cs : list pconstr) : Prop :=
     (forall v c, In (PCLocation v c) cs -> f v = c)
     /\ (forall vs a b, In (PCSameChip vs) cs -> In a vs -> In b vs -> f a = f b).
 
+
+(* ---------------------------------------------------------------------------------------------- *)
+(* The premise of the property's completeness clause                                                *)
+(* ---------------------------------------------------------------------------------------------- *)
+(* the total size of the global (location = None) reservations of resource r *)
+Fixpoint greserved (cs : list pconstr) (r : res) : Z :=
+  match cs with
+  | [] => 0
+  | PCReserve r' start stop None :: t => (if r =? r' then stop - start else 0) + greserved t r
+  | _ :: t => greserved t r
+  end.
+
+Definition is_location (v : vertex) (c : chip) (k : pconstr) : bool :=
+  match k with PCLocation v' c' => (v =? v') && chip_eqb c c' | _ => false end.
+
+(* what the vertices location-constrained to chip c need of resource r (each vertex counted once) *)
+Definition located (vr : vresources) (cs : list pconstr) (c : chip) (r : res) : Z :=
+  fold_right Z.add 0 (map (fun vd => if existsb (is_location (fst vd) c) cs then rget r (snd vd) else 0) vr).
+
+Record unit_premise (vr : vresources) (m : pmachine) (cs : list pconstr) (r0 : res) : Prop := {
+  (* every vertex needs at most one unit of the single resource r0 (and nothing of any other) *)
+  up_unit : forall v d r q, In (v, d) vr -> In (r, q) d -> (r = r0 /\ (q = 0 \/ q = 1)) \/ q = 0;
+  (* there are no same-chip groups *)
+  up_no_groups : forall vs, ~ In (PCSameChip vs) cs;
+  (* something can be placed at all: a problem with vertices has a working chip *)
+  up_some_chip : vr <> [] -> exists c, live m c = true;
+  (* resource dictionaries are dictionaries *)
+  up_res_nodup : NoDup (map fst (pm_res m)) /\ (forall c d, In (c, d) (pm_exc m) -> NoDup (map fst d));
+  (* reservations are ranges on working chips that fit: "reserved ranges must not be partly or fully
+     outside the available resources for a chip" *)
+  up_reserve_range : forall r s e loc, In (PCReserve r s e loc) cs ->
+                                       s <= e /\ (forall c, loc = Some c -> live m c = true);
+  up_reservations_fit : (forall r, 0 <= rget r (pm_res m) - greserved cs r)
+                        /\ (forall c r, live m c = true -> 0 <= capacity m c r - reserved cs c r);
+  (* location constraints name working chips, one chip per vertex, and the constrained vertices fit *)
+  up_locations_live : forall v c, In (PCLocation v c) cs -> live m c = true;
+  up_locations_once : forall v c c', In (PCLocation v c) cs -> In (PCLocation v c') cs -> c = c';
+  up_locations_fit : forall c, live m c = true ->
+                               located vr cs c r0 <= capacity m c r0 - reserved cs c r0;
+  (* the total free capacity suffices *)
+  up_total : fold_right Z.add 0 (map (fun vd => rget r0 (snd vd)) vr)
+             <= fold_right Z.add 0 (map (fun c => capacity m c r0 - reserved cs c r0) (raster m)) }.
+
+(* a caller-supplied chip order lists every working chip exactly once (other coordinates are allowed) *)
+Definition chip_order_ok (m : pmachine) (co : list chip) : Prop :=
+  NoDup (filter (live m) co) /\ forall c, live m c = true -> In c co.
+
+(* a caller-supplied vertex order lists exactly the vertices of the problem *)
+Definition vertex_order_ok (vr : vresources) (vo : list vertex) : Prop :=
+  forall v, In v vo <-> In v (map fst vr).
